@@ -608,3 +608,92 @@ package db
 //@   assert before call#1 Unmarshal: iterfresh(arg0)
 //@   tags C11
 //@ apply ErrFlow: (*mergeProcessor).tryFetchMissingBlocksAndMerge
+//@
+//@ // ===== C06: every request made through a transaction handle is served inside that transaction: the
+//@ // forwarding methods of *Txn bind the context to the handle first and pass the bound context on
+//@ func InitContext -> (r)
+//@   assert before call#1 CtxSetFromClientTxn: arg0 == ctx && arg1 == txn
+//@   assert before call#1 InitCollectionShortIDCache: arg0 == res(CtxSetFromClientTxn, 1, 0)
+//@   assert before call#1 InitFieldShortIDCache: arg0 == res(InitCollectionShortIDCache, 1, 0)
+//@   ensures r == res(InitFieldShortIDCache, 1, 0)
+//@   tags C06
+//@ func (*Txn).AddDACPolicy
+//@   assert before call#1 AddDACPolicy: arg1 == res(InitContext, 1, 0) && callarg(InitContext, 1, 1) == box(txn) && arg0 == txn.db
+//@   tags C06
+//@ func (*Txn).AddDACActorRelationship
+//@   assert before call#1 AddDACActorRelationship: arg1 == res(InitContext, 1, 0) && callarg(InitContext, 1, 1) == box(txn) && arg0 == txn.db
+//@   tags C06
+//@ func (*Txn).DeleteDACActorRelationship
+//@   assert before call#1 DeleteDACActorRelationship: arg1 == res(InitContext, 1, 0) && callarg(InitContext, 1, 1) == box(txn) && arg0 == txn.db
+//@   tags C06
+//@ func (*Txn).AddNACActorRelationship
+//@   assert before call#1 AddNACActorRelationship: arg1 == res(InitContext, 1, 0) && callarg(InitContext, 1, 1) == box(txn) && arg0 == txn.db
+//@   tags C06
+//@ func (*Txn).DeleteNACActorRelationship
+//@   assert before call#1 DeleteNACActorRelationship: arg1 == res(InitContext, 1, 0) && callarg(InitContext, 1, 1) == box(txn) && arg0 == txn.db
+//@   tags C06
+//@ func (*Txn).ReEnableNAC
+//@   assert before call#1 ReEnableNAC: arg1 == res(InitContext, 1, 0) && callarg(InitContext, 1, 1) == box(txn) && arg0 == txn.db
+//@   tags C06
+//@ func (*Txn).DisableNAC
+//@   assert before call#1 DisableNAC: arg1 == res(InitContext, 1, 0) && callarg(InitContext, 1, 1) == box(txn) && arg0 == txn.db
+//@   tags C06
+//@ func (*Txn).GetNACStatus
+//@   assert before call#1 GetNACStatus: arg1 == res(InitContext, 1, 0) && callarg(InitContext, 1, 1) == box(txn) && arg0 == txn.db
+//@   tags C06
+//@ func (*Txn).GetNodeIdentity
+//@   assert before call#1 GetNodeIdentity: arg1 == res(InitContext, 1, 0) && callarg(InitContext, 1, 1) == box(txn) && arg0 == txn.db
+//@   tags C06
+//@ func (*Txn).VerifySignature
+//@   assert before call#1 VerifySignature: arg1 == res(InitContext, 1, 0) && callarg(InitContext, 1, 1) == box(txn) && arg0 == txn.db
+//@   tags C06
+//@ func (*Txn).AddSchema
+//@   assert before call#1 AddSchema: arg1 == res(InitContext, 1, 0) && callarg(InitContext, 1, 1) == box(txn) && arg0 == txn.db
+//@   tags C06
+//@ func (*Txn).PatchSchema
+//@   assert before call#1 PatchSchema: arg1 == res(InitContext, 1, 0) && callarg(InitContext, 1, 1) == box(txn) && arg0 == txn.db
+//@   tags C06
+//@ func (*Txn).PatchCollection
+//@   assert before call#1 PatchCollection: arg1 == res(InitContext, 1, 0) && callarg(InitContext, 1, 1) == box(txn) && arg0 == txn.db
+//@   tags C06
+//@ func (*Txn).SetActiveSchemaVersion
+//@   assert before call#1 SetActiveSchemaVersion: arg1 == res(InitContext, 1, 0) && callarg(InitContext, 1, 1) == box(txn) && arg0 == txn.db
+//@   tags C06
+//@ func (*Txn).AddView
+//@   assert before call#1 AddView: arg1 == res(InitContext, 1, 0) && callarg(InitContext, 1, 1) == box(txn) && arg0 == txn.db
+//@   tags C06
+//@ func (*Txn).RefreshViews
+//@   assert before call#1 RefreshViews: arg1 == res(InitContext, 1, 0) && callarg(InitContext, 1, 1) == box(txn) && arg0 == txn.db
+//@   tags C06
+//@ func (*Txn).SetMigration
+//@   assert before call#1 SetMigration: arg1 == res(InitContext, 1, 0) && callarg(InitContext, 1, 1) == box(txn) && arg0 == txn.db
+//@   tags C06
+//@ func (*Txn).GetCollectionByName
+//@   assert before call#1 GetCollectionByName: arg1 == res(InitContext, 1, 0) && callarg(InitContext, 1, 1) == box(txn) && arg0 == txn.db
+//@   tags C06
+//@ func (*Txn).GetCollections
+//@   assert before call#1 GetCollections: arg1 == res(InitContext, 1, 0) && callarg(InitContext, 1, 1) == box(txn) && arg0 == txn.db
+//@   tags C06
+//@ func (*Txn).GetSchemaByVersionID
+//@   assert before call#1 GetSchemaByVersionID: arg1 == res(InitContext, 1, 0) && callarg(InitContext, 1, 1) == box(txn) && arg0 == txn.db
+//@   tags C06
+//@ func (*Txn).GetSchemas
+//@   assert before call#1 GetSchemas: arg1 == res(InitContext, 1, 0) && callarg(InitContext, 1, 1) == box(txn) && arg0 == txn.db
+//@   tags C06
+//@ func (*Txn).GetAllIndexes
+//@   assert before call#1 GetAllIndexes: arg1 == res(InitContext, 1, 0) && callarg(InitContext, 1, 1) == box(txn) && arg0 == txn.db
+//@   tags C06
+//@ func (*Txn).ExecRequest
+//@   assert before call#1 ExecRequest: arg1 == res(InitContext, 1, 0) && callarg(InitContext, 1, 1) == box(txn) && arg0 == txn.db
+//@   tags C06
+//@ func (*Txn).BasicImport
+//@   assert before call#1 BasicImport: arg1 == res(InitContext, 1, 0) && callarg(InitContext, 1, 1) == box(txn) && arg0 == txn.db
+//@   tags C06
+//@ func (*Txn).BasicExport
+//@   assert before call#1 BasicExport: arg1 == res(InitContext, 1, 0) && callarg(InitContext, 1, 1) == box(txn) && arg0 == txn.db
+//@   tags C06
+//@ protocol Forward
+//@   requires !failed && !owned && !discardDeferred && commitCalls == 0 && !committed
+//@   modifies failed, owned, discardDeferred, commitCalls, committed, colSaves, kvCommits, kvCommitOK, kvDiscards, newTxns
+//@   tags C06
+//@ apply Forward: (*Txn).AddDACPolicy, (*Txn).AddDACActorRelationship, (*Txn).DeleteDACActorRelationship, (*Txn).AddNACActorRelationship, (*Txn).DeleteNACActorRelationship, (*Txn).ReEnableNAC, (*Txn).DisableNAC, (*Txn).GetNACStatus, (*Txn).GetNodeIdentity, (*Txn).VerifySignature, (*Txn).AddSchema, (*Txn).PatchSchema, (*Txn).PatchCollection, (*Txn).SetActiveSchemaVersion, (*Txn).AddView, (*Txn).RefreshViews, (*Txn).SetMigration, (*Txn).GetCollectionByName, (*Txn).GetCollections, (*Txn).GetSchemaByVersionID, (*Txn).GetSchemas, (*Txn).GetAllIndexes, (*Txn).ExecRequest, (*Txn).BasicImport, (*Txn).BasicExport
